@@ -1276,6 +1276,10 @@ bool Annotator::AnnotatorImpl::itemsEqual(const AnyCellmlElementPtr &itemWeak, c
 bool Annotator::AnnotatorImpl::validItem(const AnyCellmlElementPtr &item)
 {
     bool result = false;
+    if (item == nullptr) {
+        return false;
+    }
+
     switch (item->type()) {
     case CellmlElementType::COMPONENT:
     case CellmlElementType::COMPONENT_REF:
@@ -1351,7 +1355,7 @@ std::string Annotator::AnnotatorImpl::setAutoId(const AnyCellmlElementPtr &item)
             addIssueNoModel();
         }
     } else {
-        addIssueInvalidArgument(item->type());
+        addIssueInvalidArgument((item != nullptr) ? item->type() : CellmlElementType::UNDEFINED);
     }
     return newId;
 }
